@@ -33,6 +33,11 @@ RULE = ('random programs as for C01 whose bodies also contain ! at the top level
         'later clauses; the caller\'s own alternatives), queried so that the cut is reached on some calls and not on others.')
 TRUSTED_BASE = []
 
+def source_ties():
+    """source-level tie of compile_body / has_local_cut / localize_cuts (notes/TIE.md)"""
+    from lib import srctie
+    return srctie.check(ID)
+
 N_LONG = {'quick': 60, 'thorough': 450}
 N_REC = {'quick': 50, 'thorough': 400}
 N_LIMIT = {'quick': 50, 'thorough': 400}
